@@ -720,7 +720,7 @@ class Expander:
             for a, b, optional in spec["bodysubs"]:
                 hit = 0
                 for sg in self.out.segs[body_seg0:]:
-                    if sg.origin[0] == "repo" and re.search(a, sg.text):
+                    if sg.origin[0] in ("repo", "rewrite") and re.search(a, sg.text):
                         sg.text, n = re.subn(a, b, sg.text)
                         hit += n
                 if not hit and optional:
